@@ -1,6 +1,4 @@
-(** VARIANT models for two proposed repairs in C11 (not applied):
-    notes/C11-fix-4.patch  a backquote command that does not plan yields the empty string (whole-token form: the
-                           index is advanced; embedded form: no stale output);
+(** VARIANT model for a proposed repair in C11 (NOT applied: the scan is not quote-aware):
     notes/C11-fix-5.patch  the substitution to run is the first dollar-paren with BALANCED parentheses, and the word is
                            rebuilt by slicing (text before the dollar, output, text after the closing paren). *)
 From Coq Require Import ZArith.
@@ -8,38 +6,6 @@ From Cicada Require Import Base.Chars Base.Tag Model.Expand.
 Local Open Scope N_scope.
 
 Definition out_of (W : World) (cmd : str) : str := match run_capture W cmd with Some o => o | None => [] end.
-
-(* ------------------------------------------------------------------ fix-4 *)
-Fixpoint dot_loop_v (fuel : nat) (W : World) (tok item : str) (log : list str) : res (str * list str) :=
-  match fuel with
-  | O => OutOfFuel
-  | S f =>
-      match dot_split tok with
-      | None => Ok (if is_empty tok then item else item ++ tok, log)
-      | Some (h, c, t) =>
-          let item' := item ++ h ++ trim (out_of W c) in
-          if is_empty t then Ok (item', log ++ [c]) else dot_loop_v f W t item' (log ++ [c])
-      end
-  end.
-
-Fixpoint dot_collect_v (W : World) (toks : tokens) (idx : nat) (log : list str)
-  : res (list (nat * str) * list str) :=
-  match toks with
-  | [] => Ok ([], log)
-  | (tg, text) :: r =>
-      match tg with
-      | TBq => res_map (fun x => ((idx, trim (out_of W text)) :: fst x, snd x))
-                       (dot_collect_v W r (S idx) (log ++ [text]))
-      | TDq | TNone =>
-          match dot_split text with
-          | None => dot_collect_v W r (S idx) log
-          | Some _ =>
-              bind (dot_loop_v (S (length text)) W text [] log) (fun y =>
-              res_map (fun x => ((idx, fst y) :: fst x, snd x)) (dot_collect_v W r (S idx) (snd y)))
-          end
-      | _ => dot_collect_v W r (S idx) log
-      end
-  end.
 
 (* ------------------------------------------------------------------ fix-5 *)
 (** [s] = text after an opening paren at nesting [depth] >= 1: up to the paren that closes depth 1 *)
